@@ -3,7 +3,7 @@
    stated about gen_shape, so it is re-checked against what the code says on every run; the
    *_matters lemmas show that the facts are not decorative (another value gives another function). *)
 From Coq Require Import ZArith List Bool Lia.
-From FxV Require Import lib.Dec model.M_Gov model.M_GovShape gen.Gen_GovShape proofs.P_Gov proofs.P_Gov3.
+From FxV Require Import lib.Dec model.M_Gov model.M_GovShape gen.Gen_GovShape proofs.P_Gov proofs.P_Gov2 proofs.P_Gov3.
 (* not used below: makes the correspondence glue build before this file, so that the differential
    run still works when a generated fact breaks one of these theorems *)
 From FxV Require model.M_GovCorr.
@@ -111,6 +111,28 @@ Theorem stored_zero_quorum_is_zero : forall P kf cust p cp,
 Proof.
   intros P kf cust p cp L Z0. destruct (gen_stored_value_or_default P kf cust p) as [-> _].
   unfold quorum_for. rewrite L. exact Z0.
+Qed.
+
+(* ------------------------------------------------------------------ undecodable records: this tree *)
+(* PINNED for the tree under check (repaired in e5a1e24): both ErrEncoding branches of the end blocker
+   remove the queue entry by the key the walk stands on.  Reverting the repair flips a generated fact
+   and breaks this obligation. *)
+Theorem tree_dequeues_undecodable_by_key :
+  sh_bad_inactive_dequeued gen_shape = true /\ sh_bad_active_dequeued_by_key gen_shape = true.
+Proof. split; reflexivity. Qed.
+
+(* hence, for Params carrying the tree's facts (what the correspondence glue builds): the end blocker
+   never fails in any history in which no message spends from the governance account — stored records
+   made undecodable included (no op_no_corrupt guard) *)
+Theorem end_block_never_fails_on_tree : forall P kf b c ops s ev t stk,
+  bad_inactive_dequeued P = sh_bad_inactive_dequeued gen_shape ->
+  bad_active_dequeued_by_key P = sh_bad_active_dequeued_by_key gen_shape ->
+  Forall op_no_govsend ops ->
+  run P kf (init b c) ops = (s, ev) ->
+  end_block P kf t stk s <> None.
+Proof.
+  intros until stk. intros F1 F2. destruct tree_dequeues_undecodable_by_key as [T1 T2].
+  rewrite T1 in F1. rewrite T2 in F2. now apply P_Gov2.end_block_never_fails_when_dequeued.
 Qed.
 
 (* ------------------------------------------------------------------ the facts matter *)
